@@ -111,6 +111,14 @@ def run_rtg(case):
     T = int(rng.choice([1, 2, 3, 10, 40]))
     gamma = float(rng.choice(GAMMAS + [rng.uniform()]))
     r = (rng.normal(size=T) * 10 ** rng.uniform(-2, 2)).tolist()
+    kind = int(rng.integers(5))
+    if kind == 1:      # integer rewards (grid worlds, Taxi, sparse +-1 tasks)
+        r = [int(x) for x in rng.integers(-3, 21, size=T)]
+    elif kind == 2:    # NumPy integer scalars, as environments return them
+        r = [np.int64(x) for x in rng.integers(-3, 21, size=T)]
+    elif kind == 3:    # booleans / float32 scalars
+        r = [bool(x) for x in rng.integers(0, 2, size=T)] if rng.random() < 0.5 \
+            else [np.float32(x) for x in rng.normal(size=T)]
     ok, out = guarded(res, "C07/raises/discounted_reward_to_go",
                       discounted_reward_to_go, r, gamma)
     if not ok:
@@ -119,9 +127,13 @@ def run_rtg(case):
     ref = np.zeros(T)
     acc = 0.0
     for t in reversed(range(T)):
-        acc = r[t] + gamma * acc
+        acc = float(r[t]) + gamma * acc
         ref[t] = acc
-    if out.shape != (T,) or not np.allclose(out, ref, rtol=1e-9, atol=1e-12):
+    # float32 reward scalars are accumulated in float32 (NumPy's weak python
+    # scalars): tolerance of the input precision
+    f32 = kind == 3 and isinstance(r[0], np.float32)
+    tol = (2e-5 if f32 else 1e-9) * max(1.0, float(np.max(np.abs(ref))))
+    if out.shape != (T,) or not np.allclose(out, ref, rtol=1e-6, atol=tol):
         res.violation("C07/reward_to_go/recurrence", "reward-to-go differs from "
                       "R_t = r_t + gamma R_{t+1}", {"got": out, "want": ref})
     res.see("recurrence_values_checked", T)
@@ -129,7 +141,8 @@ def run_rtg(case):
         t0 = int(rng.integers(1, T))
         r2 = list(r)
         for j in range(t0):
-            r2[j] = float(rng.normal() * 100)
+            r2[j] = type(r[j])(rng.integers(-50, 50)) if kind in (1, 2) else \
+                float(rng.normal() * 100)
         out2 = np.asarray(discounted_reward_to_go(r2, gamma), dtype=float)
         if not same_bits(out[t0:], out2[t0:]):
             res.violation("C07/reward_to_go/not_causal", "estimate at t changed "
@@ -366,6 +379,8 @@ def run_dataset(case):
 
     n = sum(lens)
     rews = rng.normal(size=n).tolist()
+    if rng.random() < 0.4:
+        rews = [int(x) for x in rng.integers(-2, 11, size=n)]
     space = gym.spaces.Box(-1, 1, (1,))
     ok, out = guarded(res, "C07/raises/prepare_policy_gradient_dataset",
                       lambda: build(rews).prepare_policy_gradient_dataset(space, gamma))
